@@ -21,13 +21,13 @@ for path in sys.argv[1:]:
 
 kept = 0
 for rid, r in sorted(results.items()):
-    m = re.match(r"(out|o2|o3|o4)-(C\d+)-(\d+)", rid)
+    m = re.match(r"(out|o2|o3|o4|o5)-(C\d+)-(\d+)", rid)
     if not m:
         continue
     wave, prop, i = m.group(1), m.group(2), m.group(3)
     src = f"/tmp/{wave}-{prop}/{i}"
     # later waves continue the numbering: o2 -> 4,5  o3 -> 6,7 ...
-    sid = f"{prop}-{int(i) + {'out': 0, 'o2': 3, 'o3': 5, 'o4': 7}[wave]}"
+    sid = f"{prop}-{int(i) + {'out': 0, 'o2': 3, 'o3': 5, 'o4': 7, 'o5': 9}[wave]}"
     dst = os.path.join(V, "seeded", sid)
     confirmed = r["suite_failures"] == 0 and r["demo_with"] != 0 and r["demo_without"] == 0
     if not confirmed:
